@@ -27,7 +27,7 @@ from .c01 import polar_projector, compare_injected
 FS = [1e-3, 1.0, 1e3, 1e6, 1e8, 1e10, 1e12, 1e14, 1e16]
 
 
-K_MULTI = "c08-largeom2-multiwyckoff"
+K_MULTI = "c08-largeom2-exchange-mixes-stars"
 K_CANCEL = "c08-largeom2-LsvL1vv-cancellation"
 
 
@@ -40,16 +40,20 @@ def run(ck):
     # rect / ortho / tet / hcp have several inequivalent exchange (omega2) classes
     # oblique1 / mono / tric: point groups with an invariant antisymmetric tensor (the two algorithms must agree on the
     # antisymmetric part of Lsv as well; fixed defect 3c84ed4)
-    names = ["rect", "oblique1", "square", "mono", "honeycomb", "ortho", "sq2w", "tria", "rect-polar2d", "sc"] + ([] if ck.quick else ["tric", "hcp", "fcc", "bcc", "b2", "re3", "tet", "polar", "diamond", "hcp-nonideal"])
+    names = ["rect", "oblique1", "square", "mono", "honeycomb", "ortho", "sq2w", "tria", "rect-polar2d", "chiral:p3", "polar3w2d", "sc"] + ([] if ck.quick else ["pg4", "tric", "chiral:p4", "hcp", "fcc", "bcc", "b2", "re3", "tet", "polar", "diamond", "hcp-nonideal"])
     ncase = 0
-    for rep in range(ck.n(8, 20)):
+    for rep in range(ck.n(12, 26)):
         nm = names[rep % len(names)]
-        crys, chem = gen.named(nm)
+        if nm.startswith("chiral:"):
+            from . import starcase
+            crys, chem = starcase.chiral_crystal(nm[7:])[:2]
+        else:
+            crys, chem = gen.named(nm)
         net = gen.percolating_network(crys, chem, rng, maxshell=1, maxjumps=30)
         if net is None: continue
         cut, sl, jn = net
         d = vm.make(crys, chem, sl, jn, 1)
-        multi = len(sl) > 1; polar = len(d.OSindices) > 0
+        multi = vm.exchange_mixes_stars(d); polar = len(d.OSindices) > 0   # 'multi': see vm.exchange_mixes_stars
         th = vm.random_thermo(d, rng, interact=True, site_energies=True)
         # inequivalent exchange classes get rates spread over up to three decades
         spread = np.array([10.0 ** rng.uniform(0, 1.5) for _ in th["preT2"]])
@@ -62,14 +66,14 @@ def run(ck):
             doc = {"crystal": nm, "cutoff": cut, "f": f, "Wyckoff_sets": len(sl), "origin_state_vector_stars": len(d.OSindices),
                    "thermo": {k: np.asarray(v).tolist() for k, v in t.items()}}
             out = {}
-            for lab, lo in (("standard", 1e300), ("default", 1e8), ("large", 1e-30)):
+            for lab, lo in (("standard", 1e300), ("default", None), ("large", 1e-30)):
                 if lab == "standard" and f > 1e8: continue
                 d.clearcache()
                 try:
-                    out[lab] = [np.array(x) for x in d.Lij(*args, large_om2=lo)]
+                    out[lab] = [np.array(x) for x in (d.Lij(*args) if lo is None else d.Lij(*args, large_om2=lo))]   # None: the calculator's own default
                 except Exception as e:
                     key = K_MULTI if (multi and f >= 1e6) else "c08-raise"
-                    ck.violation("Lij(large_om2=%g) raised %r at omega2 scale %g" % (lo, e, f), doc, key=key); out[lab] = None
+                    ck.violation("Lij(large_om2=%s) raised %r at omega2 scale %g" % (lo, e, f), doc, key=key); out[lab] = None
             if out.get("default") is None: continue
             ncase += 1
             L = out["default"]; scale = np.abs(L[0]).max()
@@ -81,7 +85,7 @@ def run(ck):
                 ck.violation("default algorithm returns non-finite tensors at omega2 scale %g" % f, doc, key=(K_MULTI if multi and f >= 1e6 else "c08-finite")); continue
             axial = tcommon.axial_dim(crys) > 0     # Lsv is not symmetric there (C03 known finding c03-Lsv-asym-axialgroup)
             sy = max(tcommon.sym_err(x) / max(np.abs(x).max(), scale) for k, x in enumerate(L) if not (axial and k == 2))
-            if sy > 1e-8 + 1e-15 * f * smax: ck.violation("default algorithm returns non-symmetric tensors (%.3g) at omega2 scale %g" % (sy, f), doc, key="c08-symmetric")
+            if sy > 1e-8 + 1e-15 * f * smax: ck.violation("default algorithm returns non-symmetric tensors (%.3g) at omega2 scale %g" % (sy, f), doc, key=(K_MULTI if multi and f >= 1e6 else "c08-symmetric"))
             if out.get("standard") is not None and out.get("large") is not None:
                 tol = 1e-14 * f * smax + 1e-9
                 ess = np.abs(out["standard"][1] - out["large"][1]).max() / scale
@@ -164,12 +168,12 @@ def run(ck):
                 t["preT2"][k0] = t["preT2"][k0] * 1e9
                 args = d.preene2betafree(1.0, **t)
                 outw = {}
-                for lab, lo in (("standard", 1e300), ("default", 1e8), ("large", 1e-30)):
+                for lab, lo in (("standard", 1e300), ("default", None), ("large", 1e-30)):
                     d.clearcache()
                     try:
-                        outw[lab] = [np.array(x) for x in d.Lij(*args, large_om2=lo)]
+                        outw[lab] = [np.array(x) for x in (d.Lij(*args) if lo is None else d.Lij(*args, large_om2=lo))]
                     except Exception as e:
-                        ck.violation("Lij(large_om2=%g) raised %r with exchange classes nine decades apart" % (lo, e), {"crystal": nm, "class": k0}, key="c08-raise"); outw[lab] = None
+                        ck.violation("Lij(large_om2=%s) raised %r with exchange classes nine decades apart" % (lo, e), {"crystal": nm, "class": k0}, key="c08-raise"); outw[lab] = None
                 if any(v is None for v in outw.values()): continue
                 scale = np.abs(outw["default"][0]).max()
                 ck.case(key=("widespread", nm, k0, [np.asarray(v).round(10).tolist() for v in th.values()]), nontrivial=True, kind="class-spread-1e9")
